@@ -399,7 +399,7 @@ func verifLoopLive(pm *Manager, n1, n2 string) bool {
 }
 
 //verif:contract (*~/client/proxy.Manager).UpdateAll
-//verif:props C19
+//verif:props C19 C01
 func verif_UpdateAll(pm *Manager, proxyCfgs []v1.ProxyConfigurer) {
 	verif.Requires(pm.proxies != nil, "constructed_by_NewManager")
 	verif.ResetEvents()
